@@ -10,10 +10,10 @@ use std::collections::BTreeSet;
 
 pub static DEF: PropDef = PropDef {
     id: "C17",
-    rule: "regex ASTs (literal a/b/c/'.'/'+'/'?'/newline (the '+' and '?' ordinary in the basic syntaxes, written [+] [?] where they are operators), any-char '.', positive/negative bracket sets with ranges, concatenation, alternation, grouping, '*', '+', '?', intervals {m}, {m,}, {m,n} with n <= 3) of depth <= 5, rendered into each supported syntax using only the constructs that syntax documents (emacs: \\( \\) \\| * + ?; posix-basic / ed / sed: \\( \\) * \\{m,n\\}; grep: \\( \\) \\| * \\+ \\? \\{m,n\\}; posix-extended: ( ) | * + ? {m,n}), alternation branches also rendered in reversed order; subjects: strings generated FROM the AST (members), their proper prefixes and one-character extensions (the prefix/substring trap), one-character edits, random strings over the same alphabet, and (where the pattern has no '.' or negated set, the only constructs that could consume it) members followed or preceded by a newline and further text, all embedded as paths r/<subject> with the pattern prefixed by the literal r/. Oracle: an independent set-of-end-positions matcher over the AST deciding membership of the ENTIRE path (ASCII case folding for -iregex). tier A through the verif-hooks entry point: exhaustive over every AST of <= 4 (thorough 5) nodes on {a, b, .} x every subject of <= 4 symbols over {a, b} x every syntax x both case modes, then random; tier B end to end: find r [-regextype T] -regex|-iregex P -print0 on a directory whose files are named by the subjects; positional -regextype: the option placed before a parenthesised group, inside an earlier group, twice with different types. Non-trivial = the AST contains an alternation or a counted repetition (+, ?, interval), and the subject set contains a member, a non-member, and a proper prefix of a member that is itself a member of one alternative or a non-member. Distinct = distinct case JSON.",
+    rule: "regex ASTs (literal a/b/c/'.'/'+'/'?'/newline (the '+' and '?' ordinary in the basic syntaxes, written [+] [?] where they are operators), any-char '.', positive/negative bracket sets with ranges, concatenation, alternation, grouping, '*', '+', '?', intervals {m}, {m,}, {m,n} with n <= 3) of depth <= 5, rendered into each supported syntax using only the constructs GNU find documents for it (emacs: \\( \\) \\| * + ?; posix-basic / ed / sed / grep: \\( \\) \\| * \\+ \\? \\{m,n\\}; posix-extended: ( ) | * + ? {m,n}); the literals ( ) | (ordinary outside posix-extended, backslashed there - and an unmatched ')' also bare there); in a third of the cases the whole pattern between anchors that change nothing about its language (^ or \\` in front, $ or \\' or a group and $ behind), alternation branches also rendered in reversed order; subjects: strings generated FROM the AST (members), their proper prefixes and one-character extensions (the prefix/substring trap), one-character edits, random strings over the same alphabet, and (where the pattern has no '.' or negated set, the only constructs that could consume it) members followed or preceded by a newline and further text, all embedded as paths r/<subject> with the pattern prefixed by the literal r/. Oracle: an independent set-of-end-positions matcher over the AST deciding membership of the ENTIRE path (ASCII case folding for -iregex). tier A through the verif-hooks entry point: exhaustive over every AST of <= 4 (thorough 5) nodes on {a, b, .} x every subject of <= 4 symbols over {a, b} x every syntax x both case modes, then random; tier B end to end: find r [-regextype T] -regex|-iregex P -print0 on a directory whose files are named by the subjects; positional -regextype: the option placed before a parenthesised group, inside an earlier group, twice with different types. Non-trivial = the AST contains an alternation or a counted repetition (+, ?, interval), and the subject set contains a member, a non-member, and a proper prefix of a member that is itself a member of one alternative or a non-member. Distinct = distinct case JSON.",
     assumptions: &[
-        "back-references, anchors inside patterns, POSIX classes, case folding beyond ASCII are not generated; newlines in paths only for patterns without . and negated sets",
-        "only constructs each syntax documents are rendered (posix-basic without \\+ \\? \\|)",
+        "back-references, anchors inside patterns (anchors around the whole pattern are generated), POSIX classes, case folding beyond ASCII are not generated; newlines in paths only for patterns without . and negated sets",
+        "only constructs GNU find documents for each syntax are rendered (emacs without intervals)",
         "nested repetition is always rendered with an explicit group",
         "random patterns nest at most two unbounded repetitions and never repeat an operand that can match the empty string (patterns on which a backtracking engine hits its retry limit are outside this check; the exhaustive sub-run does contain small ones such as (a*)*)",
     ],
@@ -59,15 +59,6 @@ impl Re {
             Re::Star(x) | Re::Plus(x) | Re::Opt(x) | Re::Rep(x, _, _) => x.may_match_newline(),
         }
     }
-    fn uses_alt_plus_opt(&self) -> bool {
-        match self {
-            Re::Alt(_) | Re::Plus(_) | Re::Opt(_) => true,
-            Re::Cat(v) => v.iter().any(|x| x.uses_alt_plus_opt()),
-            Re::Star(x) => x.uses_alt_plus_opt(),
-            Re::Rep(x, _, _) => x.uses_alt_plus_opt(),
-            _ => false,
-        }
-    }
     fn uses_interval(&self) -> bool {
         match self {
             Re::Rep(..) => true,
@@ -96,7 +87,6 @@ impl Re {
     pub fn expressible(&self, syntax: &str) -> bool {
         match family(syntax) {
             0 => !self.uses_interval(),
-            1 => !self.uses_alt_plus_opt(),
             _ => true,
         }
     }
@@ -125,7 +115,15 @@ pub fn render(re: &Re, syntax: &str, rev_alt: bool) -> String {
                     format!("[{c}]")
                 }
             }
-            '.' | '*' | '[' | ']' | '\\' | '^' | '$' | '(' | ')' | '{' | '}' | '|' => {
+            // ordinary characters outside posix-extended, where they are written with a backslash
+            '(' | ')' | '|' => {
+                if fam == 3 {
+                    format!("\\{c}")
+                } else {
+                    c.to_string()
+                }
+            }
+            '.' | '*' | '[' | ']' | '\\' | '^' | '$' | '{' | '}' => {
                 // only '.' is ever generated from this list; a backslash-escaped period is a literal period everywhere
                 format!("\\{c}")
             }
@@ -184,8 +182,8 @@ pub fn render(re: &Re, syntax: &str, rev_alt: bool) -> String {
                 };
                 let op = match re {
                     Re::Star(_) => "*".to_string(),
-                    Re::Plus(_) => if fam == 2 { "\\+".into() } else { "+".into() },
-                    Re::Opt(_) => if fam == 2 { "\\?".into() } else { "?".into() },
+                    Re::Plus(_) => if fam == 1 || fam == 2 { "\\+".into() } else { "+".into() },
+                    Re::Opt(_) => if fam == 1 || fam == 2 { "\\?".into() } else { "?".into() },
                     Re::Rep(_, m, n) => {
                         let body = match n {
                             None => format!("{m},"),
@@ -316,7 +314,7 @@ pub fn member(re: &Re, subject: &str, icase: bool) -> bool {
 
 fn gen_atom(g: &mut Gen) -> Re {
     match g.weighted(&[8, 2, 3]) {
-        0 => Re::Lit(g.pick(&['a', 'b', 'c', 'a', 'b', '.', 'A', '+', '?', 'a', 'b', 'c', 'a', 'b', '.', 'A', '+', '?', '\n'])),
+        0 => Re::Lit(g.pick(&['a', 'b', 'c', 'a', 'b', '.', 'A', '+', '?', 'a', 'b', 'c', 'a', 'b', '.', 'A', '+', '?', '\n', ')', '(', '|', ')'])),
         1 => Re::Any,
         _ => {
             let neg = g.chance(1, 3);
@@ -470,6 +468,61 @@ pub struct Case {
     /// (almost) never in the language although a suffix of it is - the suffix/substring trap
     #[serde(default)]
     pub no_prefix: bool,
+    /// anchors around the whole pattern, which change nothing about its language: bits 0-1 at the
+    /// end (1 `$`, 2 `\'`, 3 the pattern grouped and then `$`), bits 2-3 at the start (1 `^`, 2 `` \` ``);
+    /// bit 4: in posix-extended a literal `)` outside every group is written without its backslash
+    #[serde(default)]
+    pub anchors: u8,
+}
+
+/// the pattern text of a case for the AST `f` (the case's AST, possibly prefixed)
+fn render_case(c: &Case, f: &Re) -> String {
+    let fam = family(&c.syntax);
+    let mut p = render(f, &c.syntax, c.rev_alt);
+    let (open, close) = if fam == 3 { ("(", ")") } else { ("\\(", "\\)") };
+    if c.anchors & 3 == 3 {
+        p = format!("{open}{p}{close}");
+    }
+    if c.anchors & 16 != 0 && fam == 3 {
+        // un-escape `\)` at group depth 0 (bracket expressions never hold parentheses here)
+        let mut out = String::new();
+        let mut depth = 0usize;
+        let mut it = p.chars().peekable();
+        while let Some(ch) = it.next() {
+            match ch {
+                '\\' => {
+                    let n = it.next().unwrap_or('\\');
+                    if n == ')' && depth == 0 {
+                        out.push(')');
+                    } else {
+                        out.push('\\');
+                        out.push(n);
+                    }
+                }
+                '(' => {
+                    depth += 1;
+                    out.push(ch);
+                }
+                ')' => {
+                    depth = depth.saturating_sub(1);
+                    out.push(ch);
+                }
+                _ => out.push(ch),
+            }
+        }
+        p = out;
+    }
+    match c.anchors & 3 {
+        1 | 3 => p.push('$'),
+        2 => p.push_str("\\'"),
+        _ => {}
+    }
+    match (c.anchors >> 2) & 3 {
+        1 => p.insert(0, '^'),
+        2 => p.insert_str(0, "\\`"),
+        _ => {}
+    }
+    p
 }
 
 fn gen_subjects(g: &mut Gen, re: &Re) -> Vec<String> {
@@ -529,7 +582,8 @@ pub fn gen_case(g: &mut Gen) -> Case {
     let ok: Vec<&str> = SYNTAXES.iter().copied().filter(|s| re.expressible(s)).collect();
     let syntax = g.pick(&ok).to_string();
     let subjects = gen_subjects(g, &re);
-    Case { re, subjects, syntax, icase: g.chance(1, 3), rev_alt: g.chance(1, 3), no_prefix: g.chance(1, 5) }
+    let anchors = if g.chance(1, 3) { g.weighted(&[3, 4, 2, 2]) as u8 | (g.weighted(&[4, 2, 1]) as u8) << 2 | if g.chance(1, 3) { 16 } else { 0 } } else { 0 };
+    Case { re, subjects, syntax, icase: g.chance(1, 3), rev_alt: g.chance(1, 3), no_prefix: g.chance(1, 5), anchors }
 }
 
 fn full(re: &Re) -> Re {
@@ -587,7 +641,7 @@ pub fn check_hook_inner(c: &Case) -> Outcome {
         return Pass::discard("AST not expressible in this syntax");
     }
     let f = full_of(c);
-    let pattern = render(&f, &c.syntax, c.rev_alt);
+    let pattern = render_case(c, &f);
     // whether '.' and negated sets consume a newline differs between the syntaxes and is not settled
     // by the statement: with such a construct in the pattern, subjects holding a newline are left out
     let undecided_newline = c.re.may_match_newline();
@@ -672,24 +726,22 @@ fn check_e2e(ctx: &mut Ctx, e: &E2e) -> Outcome {
             names.push(s.clone());
         }
     }
-    let f = full(&c.re); // the end-to-end tier always uses the prefixed form
-    let pattern = render(&f, &c.syntax, c.rev_alt);
+    // the end-to-end tier always uses the prefixed form; find runs with cwd = sandbox root and the
+    // tree is c/r (chdir is process-wide), so the prefix is c/r/
+    let f = Re::Cat(vec![Re::Lit('c'), Re::Lit('/'), Re::Lit('r'), Re::Lit('/'), c.re.clone()]);
+    let pattern_c = render_case(c, &f);
     let test = if c.icase { "-iregex" } else { "-regex" };
     // a syntax in which the pattern text would mean something else, to expose a lost -regextype
     let other = if family(&c.syntax) == 3 { "posix-basic" } else { "posix-extended" };
-    let mut args: Vec<&str> = vec!["r", "-sorted"];
+    let mut args: Vec<&str> = vec!["c/r", "-sorted"];
     match e.shape {
-        0 => args.extend(["-regextype", &c.syntax, test, &pattern]),
-        1 => args.extend(["-regextype", &c.syntax, "(", test, &pattern, ")"]),
-        2 => args.extend(["(", "-regextype", &c.syntax, ")", test, &pattern]),
-        3 => args.extend(["-regextype", other, "-true", "-regextype", &c.syntax, test, &pattern]),
-        _ => args.extend([test, &pattern]),
+        0 => args.extend(["-regextype", &c.syntax, test, &pattern_c]),
+        1 => args.extend(["-regextype", &c.syntax, "(", test, &pattern_c, ")"]),
+        2 => args.extend(["(", "-regextype", &c.syntax, ")", test, &pattern_c]),
+        3 => args.extend(["-regextype", other, "-true", "-regextype", &c.syntax, test, &pattern_c]),
+        _ => args.extend([test, &pattern_c]),
     }
     args.push("-print0");
-    // find runs with cwd = sandbox root; the tree is c/r: chdir is process-wide, so use the path c/r
-    // and prefix the pattern accordingly
-    let pattern_c = format!("c/{pattern}");
-    let args: Vec<&str> = args.iter().map(|a| if *a == "r" { "c/r" } else if *a == pattern.as_str() { pattern_c.as_str() } else { *a }).collect();
     let o = ctx.find(&args);
     if let Some(p) = o.panic {
         return fail(format!("C17:panic:{}", p.split(": ").next().unwrap_or("?")), format!("find {args:?}: {p}"));
@@ -699,7 +751,7 @@ fn check_e2e(ctx: &mut Ctx, e: &E2e) -> Outcome {
     let mut sorted = names.clone();
     sorted.sort_by(|a, b| a.as_bytes().cmp(b.as_bytes()));
     for n in &sorted {
-        if member(&f, &format!("r/{n}"), c.icase) {
+        if member(&f, &format!("c/r/{n}"), c.icase) {
             want.push(format!("c/r/{n}"));
         }
     }
@@ -794,14 +846,18 @@ fn run(w: &mut Worker) {
                 continue;
             }
             for icase in [false, true] {
-                cases.push(Case { re: re.clone(), subjects: subs.clone(), syntax: syn.to_string(), icase, rev_alt: false, no_prefix: false });
+                cases.push(Case { re: re.clone(), subjects: subs.clone(), syntax: syn.to_string(), icase, rev_alt: false, no_prefix: false, anchors: 0 });
+            }
+            // ^...$ and \`...\' around the whole pattern
+            for anchors in [1 | 1 << 2, 2 | 2 << 2] {
+                cases.push(Case { re: re.clone(), subjects: subs.clone(), syntax: syn.to_string(), icase: false, rev_alt: false, no_prefix: false, anchors });
             }
             if re.has_alt() {
-                cases.push(Case { re: re.clone(), subjects: subs.clone(), syntax: syn.to_string(), icase: false, rev_alt: true, no_prefix: true });
+                cases.push(Case { re: re.clone(), subjects: subs.clone(), syntax: syn.to_string(), icase: false, rev_alt: true, no_prefix: true, anchors: 1 });
             }
         }
     }
-    w.exhaustive("hook-small", &format!("every AST of <= {maxn} nodes over {{a, b, .}} with * + ? {{1,2}} concatenation alternation x every subject of <= 4 symbols over {{a,b}} x four syntaxes x case modes (+ reversed alternatives)"), cases.into_iter(), check_hook);
+    w.exhaustive("hook-small", &format!("every AST of <= {maxn} nodes over {{a, b, .}} with * + ? {{1,2}} concatenation alternation x every subject of <= 4 symbols over {{a,b}} x four syntaxes x case modes (+ reversed alternatives, + the whole pattern between ^ $ and between \\` \\')"), cases.into_iter(), check_hook);
     w.random("hook", w.tier.pick(200_000, 3_000_000), (40, 200), 800, gen_case, check_hook);
     w.random("e2e", w.tier.pick(30_000, 400_000), (40, 200), 400, gen_e2e, check_e2e);
 }
